@@ -53,7 +53,10 @@ QExpPos(t) ==
       RECURSIVE Sq(_, _)
       Sq(i, v) == IF i = 0 THEN v ELSE Sq(i - 1, QMul(v, v))
   IN Sq(10, T(1, QOne, QOne))
-QExp(t) == IF ZSign(t) >= 0 THEN QExpPos(t) ELSE QDiv(QOne, QExpPos(ZNeg(t)))
+\* |t| is clamped at 400: e^400 > 2^577 exceeds every representable value by far and e^-400 < 2^-577 is below every
+\* resolution, so the clamped reference decides the same way (and the series above assumes t / 1024 is small)
+QClamp(t) == LET c == ZShl(ZI(400), QP) IN IF ZLt(c, t) THEN c ELSE IF ZLt(t, ZNeg(c)) THEN ZNeg(c) ELSE t
+QExp(t) == LET u == QClamp(t) IN IF ZSign(u) >= 0 THEN QExpPos(u) ELSE QDiv(QOne, QExpPos(ZNeg(u)))
 
 \* x = 2^k * m with m in [1, 2):  [k, 2*atanh((m-1)/(m+1))]
 QLnParts(x) ==
@@ -161,6 +164,8 @@ LnOk(e) ==
 ExpOk(e) ==
   MOk(e) => LET E == QExp(XQ(e)) IN
             Within(RQ(e), E, ZAdd(ZAdd(ZFloorShr(E, 20), ZShl(UlpQ(e), 6)), Slack(E)))
+\* relative error C15 allows for pow: 2^-18 + |y ln x| 2^-22 + 16 |y| 2^-F
+PowRel(e, yq, yl) == ZAdd(ZAdd(ZPow2(QP - 18), ZFloorShr(ZAbs(yl), 22)), ZShl(ZFloorShr(ZAbs(yq), FD(e)), 4))
 PowOk(e) ==
   LET x == ZJ(e.x)  y == ZJ(e.y)  one == ZPow2(FS(e)) IN
   IF ZIsZero(x) THEN MOk(e) /\ ZIsZero(MRes(e))
@@ -170,8 +175,29 @@ PowOk(e) ==
   ELSE LET yq == QOfFix(y, FS(e))
            yl == QMul(yq, QLn(XQ(e)))                                    \* y ln x
            V  == QExp(yl)
-           rel == ZAdd(ZAdd(ZPow2(QP - 18), ZFloorShr(ZAbs(yl), 22)), ZShl(ZFloorShr(ZAbs(yq), FD(e)), 4))
-       IN Within(RQ(e), V, ZAdd(ZAdd(QMul(V, rel), ZShl(UlpQ(e), 6)), Slack(V)))
+       IN Within(RQ(e), V, ZAdd(ZAdd(QMul(V, PowRel(e, yq, yl)), ZShl(UlpQ(e), 6)), Slack(V)))
+\* Named deviation pow_ln_resolution (known finding, C15).  pow computes exp(y * ln x) with ln x held in D, i.e. with an
+\* absolute error of up to 8 units in the last place (C14).  The bound of C15 propagates that error to first order
+\* (16 |y| 2^-F relative); the exact propagation is the factor e^(+-8 |y| 2^-F), which exceeds the first-order term once
+\* 8 |y| 2^-F > 1.25.  An event that PowOk rejects is explained by this deviation only if |y| >= 2^(F-3) (outside the
+\* range where the first-order bound covers the exact one) and r lies within the ExpOk tolerance of
+\* [e^(y ln x - |y| d), e^(y ln x + |y| d)] with d = 9 ulp + 2^-23 |ln x| (8 ulp and 2^-23 relative from C14, one ulp
+\* for the truncated product).
+PowLnResolution(e) ==
+  LET x == ZJ(e.x)  y == ZJ(e.y)  one == ZPow2(FS(e)) IN
+  /\ ZSign(x) > 0 /\ ~ZIsZero(y) /\ ~ZEq(y, one) /\ MOk(e)
+  /\ LET yq  == QOfFix(y, FS(e))
+         ay  == ZAbs(yq)
+         lnx == QLn(XQ(e))
+         d   == ZAdd(ZMul(ZI(9), UlpQ(e)), ZFloorShr(ZAbs(lnx), 23))
+         yl  == QMul(yq, lnx)
+         w   == QMul(ay, d)
+         lo  == QExp(ZSub(yl, w))
+         hi  == QExp(ZAdd(yl, w))
+         tol(V) == ZAdd(ZAdd(ZFloorShr(V, 20), ZShl(UlpQ(e), 6)), Slack(V))
+     IN /\ ZLe(ZPow2(QP + FD(e) - 3), ay)
+        /\ ZLe(ZSub(lo, tol(lo)), RQ(e))
+        /\ ZLe(RQ(e), ZAdd(hi, tol(hi)))
 PowiOk(e) ==
   LET x == ZJ(e.x)  n == e.n  fs == FS(e)  fd == FD(e) IN
   IF ZIsZero(x) THEN MOk(e) /\ ZIsZero(MRes(e))
@@ -214,7 +240,11 @@ FitsOrErr(e) ==
   ~MOk(e) \/
   CASE e.fn = "exp" -> ~ClearlyTooBig(QExp(XQ(e)), e)
     [] e.fn = "pow" -> ZSign(ZJ(e.x)) <= 0 \/ ZIsZero(ZJ(e.y))
-                       \/ ~ClearlyTooBig(QExp(QMul(QOfFix(ZJ(e.y), FS(e)), QLn(XQ(e)))), e)
+                       \/ LET yq == QOfFix(ZJ(e.y), FS(e))
+                              yl == QMul(yq, QLn(XQ(e)))
+                              V  == QExp(yl)
+                          \* beyond the maximum by more than the error C15 allows the computed power
+                          IN ~ZLt(ZAdd(ZAdd(QOfFix(ZAdd(MaxV(e.D), ZI(1)), FD(e)), ZFloorShr(V, 18)), QMul(V, PowRel(e, yq, yl))), V)
     [] e.fn = "powi" -> e.n <= 1 \/ e.n * ZBitLen(ZJ(e.x)) > 9000
                         \/ ~ZLt(ZShl(ZAdd(MaxV(e.D), ZI(2)), FS(e) * e.n), ZShl(ZAbs(ZPow(ZJ(e.x), e.n)), FD(e)))
     [] OTHER -> TRUE
